@@ -103,7 +103,8 @@ type Corr struct {
 func (k Corr) String() string { return fmt.Sprintf("%s(%d,%d,%d)", k.Kind, k.L, k.F, k.V) }
 
 func numbers(M uint64) []string {
-	return []string{"-1", fmt.Sprintf("-%d", M), fmt.Sprint(M), fmt.Sprint(M + 1), "2147483647", "2147483648", "9223372036854775808", "99999999999999999999", "x", "", "1.5", "+3", "0x10", "-"}
+	return []string{"-1", fmt.Sprintf("-%d", M), fmt.Sprint(M), fmt.Sprint(M + 1), "2147483647", "2147483648", "9223372036854775808", "99999999999999999999", "x", "", "1.5", "+3", "0x10", "-",
+		fmt.Sprintf("-%d", M+2), fmt.Sprintf("-%d", 2*M+1), "-2147483648", "-9223372036854775808", fmt.Sprint(3*M - 1)}
 }
 
 func corrSites(lines []string, legacy bool, M uint64) []Corr {
@@ -262,6 +263,6 @@ func (c *Ctx) RunC10(tier string) {
 			}
 		}
 	}
-	rep.Bound = fmt.Sprintf("10 canonical files per dialect x M in %v: truncation at every byte; every single corruption (delete / duplicate / transpose a field, 14 replacement numbers, 5 bad mnemonics, 5 bad modes, 14 directive insertions at every line boundary), also without the final newline; every pair of corruptions (quick: for the first 3 files)", sizes)
+	rep.Bound = fmt.Sprintf("10 canonical files per dialect x M in %v: truncation at every byte; every single corruption (delete / duplicate / transpose a field, 19 replacement numbers, 5 bad mnemonics, 5 bad modes, 14 directive insertions at every line boundary), also without the final newline; every pair of corruptions (quick: for the first 3 files)", sizes)
 	rep.Sample(strings.Join(canonicalFiles(true, 8000)[4], "\n") + "\n")
 }
